@@ -200,6 +200,11 @@ class RestAPI(object):
                     "Message body {} does not contain valid JSON".format(data)
                 )
 
+            # The AWS JSON protocol carries a JSON object. Anything else (including
+            # a body that is not JSON at all) can't be a valid request for any action.
+            if not isinstance(params, dict):
+                return aws_error("SerializationException", "Request body is not a JSON object"), 400
+
             # ------------------------------------------------------------------
 
             """
